@@ -38,7 +38,9 @@ func runC04(c *an.Ctx) {
 	r045(c)
 	r046(c, "R04.6")
 	r034(c, "R04.7")
+	r062filters(c, "R04.8")
 	c.Min("R04.7", 5)
+	c.Min("R04.8", 2)
 	c.Min("R04.1", 6)
 	c.Min("R04.2", 3)
 	c.Min("R04.3", 3)
@@ -231,6 +233,26 @@ func r043(c *an.Ctx) {
 						stored = st.Val
 					}
 				}
+			})
+		}
+		// the stored time is written on every path of the save callback (a conditional store keeps a stale time)
+		for _, f := range an.WithClosures(fn) {
+			an.Instrs(f, func(in ssa.Instruction) {
+				st, ok := in.(*ssa.Store)
+				if !ok {
+					return
+				}
+				if _, sn, fld, isF := an.FieldOf(st.Addr); !isF || fld != storedField || !(strings.HasSuffix(sn, "/pkg/resource.Value") || strings.HasSuffix(sn, "/pkg/resource.item")) {
+					return
+				}
+				all := true
+				for _, r := range an.Returns(f) {
+					if !an.Dominates(st, r) {
+						all = false
+					}
+				}
+				// the value (or item) and its time are written together
+				c.Check(all, rule, name+"|every save records its change time", st.Pos(), "", "the stored change time is only updated on some paths of the save callback: a write can leave a stale time behind, which a later seed reports instead of the write's time")
 			})
 		}
 		for _, s := range an.CallsTo(fn, busSend) {
